@@ -142,6 +142,18 @@ def _oracle_sig(ctx, si):
       fails.append(ctx.fail('validate_raises', f'{mname}: {type(e).__name__}: '
                             f'{e}'[:300], sub_facts, f'raises:{type(e).__name__}'))
       continue
+    # reading the flat view (as save() does) must not change the grouped one
+    before = [dict(r.input_tensors), dict(r.output_tensors),
+              dict(r.constant_tensors), dict(r.intermediate_tensors)]
+    flat1 = dict(cr.get_all_tensor_results())
+    flat2 = dict(cr.get_all_tensor_results())
+    r = cr.get_signature_comparison_result(key)
+    after = [dict(r.input_tensors), dict(r.output_tensors),
+             dict(r.constant_tensors), dict(r.intermediate_tensors)]
+    if before != after or flat1 != flat2:
+      fails.append(ctx.fail('result_changed_by_reading_it', f'{mname}: groups '
+                            'differ after get_all_tensor_results()', sub_facts,
+                            'aliasing'))
     groups = {'inputs': r.input_tensors, 'outputs': r.output_tensors,
               'constants': r.constant_tensors,
               'intermediates': r.intermediate_tensors}
